@@ -97,7 +97,13 @@ Theorem C14_can_enforce_readonly : forall c s p a r ctx sgs,
 Proof. exact can_enforce_readonly. Qed.
 Print Assumptions C14_can_enforce_readonly.
 
-(* a rejected attempt leaves no trace: same state, no event *)
+(* a rejected attempt leaves no trace: same state, no event.
+   NB: this statement and C14_can_enforce_readonly (and the "changes nothing" half of
+   C14_needs_account_auth) hold by the construction of [step] - the model returns the old state on
+   every failure, mirroring the host's rollback of a failed invocation, and never writes in
+   can_enforce.  They prove nothing about the code: for the code these clauses rest on the host
+   rollback and on the correspondence run, where the monitor compares every getter and the event
+   list after every failing and every read-only call. *)
 Theorem C14_rejected_no_trace : forall c s cl,
   snd (fst (step c s cl)) = Fail -> step c s cl = (s, Fail, []).
 Proof. exact rejected_no_trace. Qed.
@@ -197,7 +203,7 @@ Theorem C14_spending_exact : forall c n0 cs au a r ctx sgs i amt,
   let s := fst (run_log c (init n0) [] cs) in
   let g := snd (run_log c (init n0) [] cs) in
   kget (a, r) g = Some i -> transfer_amount ctx = Some amt ->
-  nonneg_log (gi_log i) = true -> 0 <= amt -> sgs <> [] ->
+  nonneg_log (stored i) = true -> 0 <= amt -> sgs <> [] ->
   let fits := (window_sum (now s) (gi_period i) (gi_log i) + amt <=? gi_limit i)
               && (len (newer (now s - gi_period i) (gi_log i)) <? max_history c) in
   is_ok (snd (fst (step c s (Enforce PL au a r [ctx] sgs)))) = has_auth au a && fits /\
@@ -205,6 +211,48 @@ Theorem C14_spending_exact : forall c n0 cs au a r ctx sgs i amt,
    snd (fst (step c s (CanEnforce PL a r ctx sgs))) = Ok (RBool fits)).
 Proof. exact spending_exact. Qed.
 Print Assumptions C14_spending_exact.
+
+(* ---- batches of more than one context (one invocation, all or nothing).  Threshold policies:
+   a batch succeeds iff it is empty or the account authorises it and the threshold is met (the
+   contexts play no role) ---- *)
+Theorem C14_batch_threshold : forall c n0 cs au a r ctxs sgs,
+  let s := run c (init n0) cs in
+  is_ok (snd (fst (step c s (Enforce PS au a r ctxs sgs)))) =
+    is_nil ctxs || (has_auth au a && match kget (a, r) (st_simple s) with Some t => t <=? len sgs | None => false end) /\
+  is_ok (snd (fst (step c s (Enforce PW au a r ctxs sgs)))) =
+    is_nil ctxs || (has_auth au a &&
+                    match kget (a, r) (st_weighted s) with
+                    | Some d => let w := wsum (wd_weights d) sgs in (w <=? MAXU32) && (wd_thr d <=? w)
+                    | None => false
+                    end).
+Proof. exact batch_threshold. Qed.
+Print Assumptions C14_batch_threshold.
+
+(* spending: l_batch_exact = every transfer of the batch, in order, fits in the window under the
+   limit in force and finds fewer than MAX_HISTORY_ENTRIES stored entries.  A successful batch
+   satisfied it (whatever the signs); with non-negative amounts (stored history and batch) the
+   batch succeeds exactly when it is authorised, has a signer, and satisfies it *)
+Theorem C14_batch_spending : forall c n0 cs au a r ctxs sgs i,
+  1 <= n0 -> 0 < max_history c -> ctxs <> [] ->
+  let s := fst (run_log c (init n0) [] cs) in
+  let g := snd (run_log c (init n0) [] cs) in
+  kget (a, r) g = Some i ->
+  let exact := l_batch_exact (max_history c) (now s) (gi_limit i) (gi_period i) ctxs (gi_log i) in
+  (is_ok (snd (fst (step c s (Enforce PL au a r ctxs sgs)))) = true -> exact = true) /\
+  (nonneg_log (stored i) = true -> nonneg_ctxs ctxs = true ->
+   is_ok (snd (fst (step c s (Enforce PL au a r ctxs sgs)))) =
+     has_auth au a && (match sgs with [] => false | _ => true end) && exact).
+Proof. exact batch_spending. Qed.
+Print Assumptions C14_batch_spending.
+
+(* installing over a live installation is refused (a re-installed spending policy would silently
+   restart the window) *)
+Theorem C14_install_twice_refused : forall c s au a r,
+  (forall rs t, kget (a, r) (st_simple s) <> None -> snd (fst (step c s (SInstall au a r rs t))) = Fail) /\
+  (forall ws t, kget (a, r) (st_weighted s) <> None -> snd (fst (step c s (WInstall au a r ws t))) = Fail) /\
+  (forall l p, kget (a, r) (st_spend s) <> None -> snd (fst (step c s (LInstall au a r l p))) = Fail).
+Proof. exact install_twice_refused. Qed.
+Print Assumptions C14_install_twice_refused.
 
 (* the instrumented run is the plain run *)
 Theorem C14_run_log_is_run : forall c cs s g, fst (run_log c s g cs) = run c s cs.
@@ -215,7 +263,8 @@ Print Assumptions C14_run_log_is_run.
    getter values only) accepts every run of the model, and the model's diff with itself is
    empty; it is what is evaluated on the implementation's traces ---- *)
 Theorem C14_monitor_accepts_model : forall (h : hdr) (cs : list call),
-  1 <= h_start h -> 0 < h_max_history h ->
+  1 <= h_start h <= MAXU32 -> 0 < h_max_history h ->
+  forallb (wf_call (hdr_u h)) cs = true ->      (* every call stays inside the header's universe *)
   check (observe_model h cs) = (0%N, 0%N, 0%N).
 Proof. exact check_accepts_model. Qed.
 Print Assumptions C14_monitor_accepts_model.
@@ -223,7 +272,7 @@ Print Assumptions C14_monitor_accepts_model.
 (* ---------- non-vacuity ---------- *)
 Module NonVacuity.
   Definition c0 : cfg := {| max_history := 1000 |}.
-  Definition tr (amt : Z) : context := CContract 0%N [AOther; AOther; AI128 amt].
+  Definition tr (amt : Z) : context := CContract 0%N 0%N [AOther; AOther; AI128 amt].
   (* install limit 100 / period 10 at ledger 5, spend 60, nine ledgers later 40 more *)
   Definition pre : list call :=
     [ LInstall [1%N] 1%N 1%N 100 10; Enforce PL [1%N] 1%N 1%N [tr 60] [0%N]; Advance 9;
@@ -252,8 +301,8 @@ Module NonVacuity.
     snd (fst (step c0 (run c0 (init 5) pre) (CanEnforce PS 1%N 1%N CCreate [0%N]))) = Ok (RBool false).
   Proof. vm_compute. repeat split. Qed.
   (* the monitor theorem's hypotheses hold for the header the harness prints *)
-  Example header_ok : 1 <= h_start (mkhdr 1000 1 [(0%N, 1%N)] [0%N]) /\ 0 < h_max_history (mkhdr 1000 1 [(0%N, 1%N)] [0%N]).
-  Proof. cbn. lia. Qed.
+  Example header_ok : 1 <= h_start (mkhdr 1000 1 [(0%N, 1%N)] [0%N]) <= MAXU32 /\ 0 < h_max_history (mkhdr 1000 1 [(0%N, 1%N)] [0%N]).
+  Proof. cbn. unfold MAXU32. lia. Qed.
   (* the hypothesis 1 <= n0 of C14_window is necessary: at ledger 0 the saturating cut-off
      (0 - period -> 0) evicts the entries of the current ledger, so 60 + 60 pass a limit of 100
      inside one ledger (outside the property's quantifier: ledgers >= 1) *)
@@ -282,4 +331,18 @@ Module NonVacuity.
     option_map gi_log (kget (1%N, 1%N) g) = Some [(60, 5); (40, 14); (30, 15)] /\
     kget (1%N, 1%N) gl = Some [100; 100; 70].
   Proof. vm_compute. split; reflexivity. Qed.
+  (* batches: two transfers that fit one by one but not together; a batch that fits; the token
+     contract of the context plays no role (ONE budget for all tokens) *)
+  Example batch_instances :
+    let s := fst (run_log c0 (init 5) [] pre) in
+    is_ok (snd (fst (step c0 s (Enforce PL [1%N] 1%N 1%N [tr 30; tr 11] [0%N])))) = false /\
+    is_ok (snd (fst (step c0 s (Enforce PL [1%N] 1%N 1%N [tr 30; CContract 7%N 0%N [AOther; AOther; AI128 10]] [0%N])))) = true /\
+    is_ok (snd (fst (step c0 s (Enforce PS [1%N] 1%N 1%N [tr 1; CCreate; tr 2] [0%N; 1%N])))) = true /\
+    is_ok (snd (fst (step c0 s (Enforce PW [1%N] 1%N 1%N [tr 1; tr 2] [0%N])))) = false /\
+    snd (fst (step c0 s (LInstall [1%N] 1%N 1%N 500 10))) = Fail.
+  Proof. vm_compute. repeat split. Qed.
+  (* the calls of a harness trace satisfy the well-formedness predicate of the monitor theorem *)
+  Example wf_instance :
+    forallb (wf_call (hdr_u (mkhdr 1000 5 [(1%N, 1%N)] [0%N; 1%N; 2%N]))) pre = true.
+  Proof. vm_compute. reflexivity. Qed.
 End NonVacuity.
